@@ -29,4 +29,6 @@ PROPS = {
         lemmas=["wf_branch_at"],
         bounded="C03", level="other",
     ),
+    "C17": dict(functions=[], lemmas=[], provenance=True, bounded="C17", level="other"),
+    "C18": dict(functions=[], lemmas=[], provenance=True, bounded="C18", level="other"),
 }
